@@ -587,8 +587,11 @@ where
         match src.peek()? {
             // Skip documents that are explicit null-like scalars ("", "~", or "null").
             Some(Ev::Scalar {
-                value: s, style, ..
-            }) if scalar_is_nullish(s, style) => {
+                value: s,
+                style,
+                tag,
+                ..
+            }) if scalar_is_nullish(s, style) && tag != &crate::tags::SfTag::String => {
                 let _ = src.next()?; // consume the null scalar document
                 continue;
             }
@@ -825,8 +828,10 @@ where
             }
             loop {
                 match self.src.peek() {
-                    Ok(Some(Ev::Scalar { value, style, .. }))
-                        if scalar_is_nullish(value, style) =>
+                    Ok(Some(Ev::Scalar {
+                        value, style, tag, ..
+                    })) if scalar_is_nullish(value, style)
+                        && tag != &crate::tags::SfTag::String =>
                     {
                         // Skip the null-like document, but never drop an error (e.g. a
                         // deferred reader failure) that surfaces while doing so.
@@ -995,8 +1000,11 @@ where
         match src.peek()? {
             // Skip documents that are explicit null-like scalars ("", "~", or "null").
             Some(Ev::Scalar {
-                value: s, style, ..
-            }) if scalar_is_nullish(s, style) => {
+                value: s,
+                style,
+                tag,
+                ..
+            }) if scalar_is_nullish(s, style) && tag != &crate::tags::SfTag::String => {
                 let _ = src.next()?; // consume the null scalar document
                 continue;
             }
@@ -1223,8 +1231,10 @@ where
             }
             loop {
                 match self.src.peek() {
-                    Ok(Some(Ev::Scalar { value, style, .. }))
-                        if scalar_is_nullish(value, style) =>
+                    Ok(Some(Ev::Scalar {
+                        value, style, tag, ..
+                    })) if scalar_is_nullish(value, style)
+                        && tag != &crate::tags::SfTag::String =>
                     {
                         // Skip the null-like document, but never drop an error (e.g. a
                         // deferred reader failure) that surfaces while doing so.
@@ -1424,8 +1434,11 @@ pub fn from_multiple_with_options<T: DeserializeOwned>(
         match src.peek()? {
             // Skip documents that are explicit null-like scalars ("", "~", or "null").
             Some(Ev::Scalar {
-                value: s, style, ..
-            }) if scalar_is_nullish(s, style) => {
+                value: s,
+                style,
+                tag,
+                ..
+            }) if scalar_is_nullish(s, style) && tag != &crate::tags::SfTag::String => {
                 let _ = src.next()?; // consume the null scalar document
                 // Do not push anything for this document; move to the next one.
                 continue;
@@ -1972,8 +1985,10 @@ where
             }
             loop {
                 match self.src.peek() {
-                    Ok(Some(Ev::Scalar { value, style, .. }))
-                        if scalar_is_nullish(value, style) =>
+                    Ok(Some(Ev::Scalar {
+                        value, style, tag, ..
+                    })) if scalar_is_nullish(value, style)
+                        && tag != &crate::tags::SfTag::String =>
                     {
                         // Skip the null-like document, but never drop an error (e.g. a
                         // deferred reader failure) that surfaces while doing so.
